@@ -100,6 +100,25 @@ def job_v0_layers(jc):
     jc.expect_reached("ok")
 
 
+def replay_extents(inp):
+    import ufoLib2
+
+    b = tuple(int(inp[n]) for n in ("x0", "y0", "x1", "y1"))
+    ufo = ufoLib2.Font()
+    g = ufo.newGlyph("g")
+    try:
+        WF._draw_glyph_extents(ufo, g, b)
+    except Exception as e:
+        return {"raised": repr(e), "box": list(b)}
+    pen = RecordingPen()
+    g.draw(pen)
+    pts = [p for _, a in pen.value for p in a]
+    area = (b[2] - b[0]) * (b[3] - b[1])
+    if (area == 0) != (not pen.value) or (pen.value and ([o for o, _ in pen.value] != ["moveTo", "lineTo", "endPath"] or [tuple(p) for p in pts] != [(b[0], b[1]), (b[2], b[3])])):
+        return {"box": list(b), "drawn": repr(pen.value)}
+    return None
+
+
 def job_extents(jc):
     """_draw_glyph_extents: the two points drawn are the box corners; zero area draws nothing."""
     import ufoLib2
@@ -130,7 +149,7 @@ def job_extents(jc):
         area = (core.as_term(b[2]) - core.as_term(b[0])) * (core.as_term(b[3]) - core.as_term(b[1]))
         if not ops:
             jc.reach(r, "nothing drawn")
-            jc.prove(r, area == 0, "nothing is drawn only for a zero-area box", inp, None, key="C03:extents")
+            jc.prove(r, area == 0, "nothing is drawn only for a zero-area box", inp, replay_extents, key="C03:extents")
         else:
             jc.reach(r, "drawn")
             pts = [p for _, a in ops for p in a]
@@ -138,7 +157,7 @@ def job_extents(jc):
             conj = [z3.BoolVal(ok), area != 0]
             if ok:
                 conj += [core.as_term(pts[0][0]) == core.as_term(b[0]), core.as_term(pts[0][1]) == core.as_term(b[1]), core.as_term(pts[1][0]) == core.as_term(b[2]), core.as_term(pts[1][1]) == core.as_term(b[3])]
-            jc.prove(r, z3.And(*conj), "the open two-point contour spans exactly the box corners", inp, None, key="C03:extents")
+            jc.prove(r, z3.And(*conj), "the open two-point contour spans exactly the box corners", inp, replay_extents, key="C03:extents")
     jc.expect_reached("drawn", "nothing drawn")
 
 
